@@ -147,7 +147,10 @@ def run(ctx):
     from joserfc import jws
     from joserfc import rfc7797 as r97
     from joserfc.jwk import KeySet, OctKey
+    import time as _t
+    _t0 = _t.time()
     ok, log = ctx.prove()
+    ctx.notes.append("prove: %.1fs" % (_t.time() - _t0)); _t0 = _t.time()
     rng = ctx.rng
     K = J.keys()
     fixed, probe_tok = detect_fixed()
@@ -500,6 +503,7 @@ def run(ctx):
                 R.add("JAlgVerify %s %s %s %s %s %s" % (J.c_table(rows), c_str(alg), J.c_key(k), c_hex(b"msg"), c_hex(sig),
                                                       J.c_res(r, c_bool)), {"fn": "ec.verify", "alg": alg, "len": n}, force=True)
         cases, meta, dist = R.cases, R.meta, R.dist
+    ctx.notes.append("implementation run: %.1fs, %d cases, %d chars" % (_t.time() - _t0, len(cases), sum(map(len, cases)))); _t0 = _t.time()
 
     ctx.coverage["rule"] = ("accepted => not derived by a fault and the returned (protected header, payload) are those of the issued token; "
                             "every tampered token is rejected with an exception; model verdict == implementation verdict per case")
@@ -508,6 +512,7 @@ def run(ctx):
     for c in cases[:3]:
         ctx.sample({"coq_case": c[:300]})
     J.finish_correspondence(ctx, "C01", cases, meta, ok, log, "c01_check", "c01_show", "c01case")
+    ctx.notes.append("coq evaluation: %.1fs" % (_t.time() - _t0))
     ctx.assumptions += [
         "json.loads and the cryptographic primitives (hmac, pyca RSA/ECDSA/EdDSA verify) are Section variables of the model; in the correspondence run they are the finite tables recorded from the real call (a query the real run did not make is a miss = disagreement)",
         "tamper theorems assume an ideal signature scheme (explicit Section hypotheses Ideal/Honest); the fault stream tests the same on the real primitives",
